@@ -263,15 +263,30 @@ def b_isinstance(ex, v, k, st):
         if isinstance(v, VOpaque):
             pc = ex.reg.pyclass(v.cls)
             if pc is not None:
-                return any(issubclass(pc, c) for c in classes)
+                if any(issubclass(pc, c) for c in classes):
+                    return True
+                subs = [c for c in classes if issubclass(c, pc)]
+                if subs:
+                    # the object may be an instance of a subclass: symbolic, via isinst_<Class>(object)
+                    from .engine import SpecFun
+                    terms = []
+                    for c in subs:
+                        nm = 'isinst_' + c.__name__
+                        if nm not in ex.reg.specfuns:
+                            ex.reg.specfuns[nm] = SpecFun(nm, [('opaque', v.cls)], 'bool')
+                        terms.append(ex.reg.specfuns[nm].apply(v.ident))
+                    return z3.Or(terms) if len(terms) > 1 else terms[0]
+                return False
         raise Unsupported('isinstance(%r)' % (v,))
+    def asbool(x):
+        return x if z3.is_expr(x) else z3.BoolVal(bool(x))
     if isinstance(v, VOpt):
         nn = any(c is type(None) for c in classes)
         sv = static(v.val)
-        if nn == sv:
+        if not z3.is_expr(sv) and nn == sv:
             return ex.val(VBool(bool(sv)), st)
-        return ex.val(VBool(z3.If(v.isnone, z3.BoolVal(nn), z3.BoolVal(sv))), st)
-    return ex.val(VBool(static(v)), st)
+        return ex.val(VBool(z3.If(v.isnone, z3.BoolVal(nn), asbool(sv))), st)
+    return ex.val(VBool(asbool(static(v))), st)
 
 
 def int_to_dec(ex, t):
